@@ -108,13 +108,15 @@ def _(c):
     c.call("asyncio.wait", returns=Tup(Set(Fut(NONE)), Set(Fut(NONE))), havoc_all=True, raises=["CancelledError"],
            note="asyncio.wait([waiter], timeout=max age): suspends until an update is asked for or the metadata is old")
     c.call("create_future", returns=Fut(NONE), post=["fresh(result)", "not result.done()"], note="a new pending future")
-    c.call("self._metadata_update", returns=BOOL, havoc_all=True, raises=["CancelledError", "Exception"],
+    c.ghost("$fetched_for", Opt(Ref("TopicSetObj")), "None")      # the topic set the last Metadata request was built for
+    c.call("self._metadata_update", returns=BOOL, havoc_all=True, raises=["CancelledError", "Exception"], ghost={"$fetched_for": "a1"},
            note="AIOKafkaClient._metadata_update(cluster, topics): one Metadata round trip for the topics given; suspends")
     c.modifies("self._md_update_fut", "self._md_update_waiter", "Future.state", "Future.nres", "Future.res")
     c.raises("cancelled-or-the-update-failed-unexpectedly", "BaseException")
     c.loop(0, header="while True", invariants=[])
     c.hook("before", "self._md_update_fut.set_result", [
-        ("assert", "an-update-is-announced-only-when-it-was-fetched-for-the-topics-followed-now", "topics == self._topics"),
+        ("assert", "an-update-is-announced-only-when-it-was-fetched-for-the-topics-followed-now",
+         "$fetched_for is not None and $fetched_for == self._topics"),
         ("assert", "with-the-outcome-of-that-fetch", "a0 == ret"),
     ])
     c.replay_fn = lambda model, ob=None: {"script": _SYNC_SCRIPT}
